@@ -32,6 +32,13 @@ type Solver struct {
 	Time    time.Duration
 	Errors  []string
 	log     io.Writer
+	// Fresh mode: no push/pop; every check re-sends the whole path condition
+	// after (reset), so z3 uses its full (non-incremental) tactic pipeline.
+	IntMode  bool // integer encoding (see intenc.go)
+	Fresh    bool
+	asserted []*Term
+	inScope  bool
+	ie       *ienc
 }
 
 func newSolver(bin []string) (*Solver, error) {
@@ -60,6 +67,7 @@ func (s *Solver) start() error {
 	s.out = bufio.NewReaderSize(out, 1<<16)
 	s.emitted = map[int]bool{}
 	s.decl = map[string]bool{}
+	s.ie = newIenc()
 	s.send("(set-option :print-success false)")
 	return nil
 }
@@ -83,6 +91,8 @@ func (s *Solver) send(line string) {
 
 // Reset starts a fresh context for a new path.
 func (s *Solver) Reset() {
+	s.asserted = nil
+	s.ie = newIenc()
 	s.send("(reset)")
 	s.send("(set-option :print-success false)")
 	s.emitted = map[int]bool{}
@@ -96,7 +106,14 @@ func (s *Solver) emit(c *TermCtx, t *Term) {
 	case OpVar:
 		if !s.decl[t.name] {
 			s.decl[t.name] = true
-			s.send(fmt.Sprintf("(declare-const %s %s)", t.name, sortOf(t.w)))
+			if s.IntMode {
+				s.send(fmt.Sprintf("(declare-const %s %s)", t.name, isort(t.w)))
+				if t.w > 0 {
+					s.send(fmt.Sprintf("(assert (and (<= 0 %s) (< %s %s)))", t.name, t.name, pow2(t.w)))
+				}
+			} else {
+				s.send(fmt.Sprintf("(declare-const %s %s)", t.name, sortOf(t.w)))
+			}
 		}
 		return
 	}
@@ -116,12 +133,40 @@ func (s *Solver) emit(c *TermCtx, t *Term) {
 		}
 		s.send(fmt.Sprintf("(declare-fun %s (%s) %s)", t.name, sb.String(), sortOf(sig[len(sig)-1])))
 	}
+	if s.IntMode {
+		b := ""
+		if t.op != OpApp {
+			if d, ok := s.ie.define(t); ok {
+				b = d
+			}
+		}
+		if b == "" {
+			s.Errors = append(s.Errors, fmt.Sprintf("integer encoding cannot express op %d", t.op))
+			b = "0"
+			if t.w == 0 {
+				b = "false"
+			}
+		}
+		s.send(fmt.Sprintf("(define-fun t%d () %s %s)", t.id, isort(t.w), b))
+		return
+	}
 	s.send(fmt.Sprintf("(define-fun t%d () %s %s)", t.id, sortOf(t.w), body(t)))
 }
 
+func (s *Solver) r(t *Term) string {
+	if s.IntMode {
+		return s.ie.ref(t)
+	}
+	return ref(t)
+}
+
 func (s *Solver) Assert(c *TermCtx, t *Term) {
+	if s.Fresh {
+		s.asserted = append(s.asserted, t)
+		return
+	}
 	s.emit(c, t)
-	s.send("(assert " + ref(t) + ")")
+	s.send("(assert " + s.r(t) + ")")
 }
 
 func (s *Solver) readLine() (string, error) {
@@ -135,10 +180,34 @@ func (s *Solver) readLine() (string, error) {
 func (s *Solver) Check(c *TermCtx, extra *Term, keep bool) SatResult {
 	t0 := time.Now()
 	s.Queries++
-	if extra != nil {
+	if s.Fresh {
+		s.send("(reset)")
+		s.send("(set-option :print-success false)")
+		s.emitted = map[int]bool{}
+		s.decl = map[string]bool{}
+		if s.IntMode {
+			s.ie = newIenc()
+			for pass := 0; pass < 2; pass++ {
+				for _, a := range s.asserted {
+					s.ie.learn(a)
+				}
+				if extra != nil {
+					s.ie.learn(extra)
+				}
+			}
+		}
+		for _, a := range s.asserted {
+			s.emit(c, a)
+			s.send("(assert " + s.r(a) + ")")
+		}
+		if extra != nil {
+			s.emit(c, extra)
+			s.send("(assert " + s.r(extra) + ")")
+		}
+	} else if extra != nil {
 		s.emit(c, extra)
 		s.send("(push 1)")
-		s.send("(assert " + ref(extra) + ")")
+		s.send("(assert " + s.r(extra) + ")")
 	}
 	s.send("(check-sat)")
 	res := Unknown
@@ -177,14 +246,18 @@ func (s *Solver) Check(c *TermCtx, extra *Term, keep bool) SatResult {
 	if len(s.Errors) > 0 {
 		res = Unknown
 	}
-	if extra != nil && !keep {
+	if extra != nil && !keep && !s.Fresh {
 		s.send("(pop 1)")
 	}
 	s.Time += time.Since(t0)
 	return res
 }
 
-func (s *Solver) PopScope() { s.send("(pop 1)") }
+func (s *Solver) PopScope() {
+	if !s.Fresh {
+		s.send("(pop 1)")
+	}
+}
 
 // Values queries the current model for the given terms.
 func (s *Solver) Values(c *TermCtx, ts []*Term) map[int]uint64 {
@@ -214,7 +287,7 @@ func (s *Solver) Values(c *TermCtx, ts []*Term) map[int]uint64 {
 		var sb strings.Builder
 		sb.WriteString("(get-value (")
 		for _, t := range q[i:j] {
-			sb.WriteString(ref(t) + " ")
+			sb.WriteString(s.r(t) + " ")
 		}
 		sb.WriteString("))")
 		s.send(sb.String())
@@ -345,6 +418,12 @@ func parseLit(toks []string) uint64 {
 		return v
 	case t == "(" && len(toks) >= 4 && toks[1] == "_" && strings.HasPrefix(toks[2], "bv"):
 		v, _ := strconv.ParseUint(toks[2][2:], 10, 64)
+		return v
+	case t == "(" && len(toks) >= 3 && toks[1] == "-":
+		v, _ := strconv.ParseUint(toks[2], 10, 64)
+		return -v
+	}
+	if v, err := strconv.ParseUint(t, 10, 64); err == nil {
 		return v
 	}
 	return 0
